@@ -87,6 +87,10 @@ type Run struct {
 	known        []*Known
 	inconclusive map[string]int
 
+	abortCh   chan struct{}
+	abortOnce sync.Once
+	MaxViol   int // stop exploring once this many unlisted violations were recorded
+
 	Rule        string
 	Assumptions []string
 	Exhaustive  bool
@@ -97,7 +101,7 @@ func NewRun(prop, tier string, seed uint64) *Run {
 	r := &Run{Prop: prop, Tier: tier, Seed: seed, Workers: 14, start: time.Now(),
 		distinct: map[string]struct{}{}, counters: map[string]int64{}, maxes: map[string]int64{},
 		vioSigs: map[string]int{}, knownHits: map[string]int{}, inconclusive: map[string]int{},
-		maxSamples: 6, Extra: map[string]any{}}
+		maxSamples: 6, Extra: map[string]any{}, abortCh: make(chan struct{}), MaxViol: 60}
 	if v := os.Getenv("VERIF_WORKERS"); v != "" {
 		if n, err := strconv.Atoi(v); err == nil && n > 0 {
 			r.Workers = n
@@ -313,6 +317,24 @@ func (r *Run) Violate(v *Violation) {
 	if r.vioSigs[v.Sig] <= 3 && len(r.violations) < 40 {
 		r.violations = append(r.violations, v)
 	}
+	n := 0
+	for _, c := range r.vioSigs {
+		n += c
+	}
+	if r.MaxViol > 0 && n >= r.MaxViol {
+		// enough refutations: stop exploring (a broken tree can make every further case slow)
+		r.abortOnce.Do(func() { close(r.abortCh) })
+	}
+}
+
+// Aborted reports whether exploration was cut short after MaxViol violations.
+func (r *Run) Aborted() bool {
+	select {
+	case <-r.abortCh:
+		return true
+	default:
+		return false
+	}
 }
 
 func (r *Run) NViolations() int {
@@ -372,6 +394,9 @@ func (r *Run) Exec(n int, opts ExecOpts, gen func(i int) *Item) {
 		if hi > n {
 			hi = n
 		}
+		if r.Aborted() {
+			break
+		}
 		jobs <- job{lo, hi}
 	}
 	close(jobs)
@@ -401,6 +426,9 @@ func head(path string, n int) string {
 }
 
 func (r *Run) runBatch(k int, lo, hi int, opts ExecOpts, gen func(i int) *Item) {
+	if r.Aborted() {
+		return
+	}
 	items := make([]*Item, 0, hi-lo)
 	for i := lo; i < hi; i++ {
 		it := gen(i)
@@ -457,8 +485,13 @@ func (r *Run) runBatch(k int, lo, hi int, opts ExecOpts, gen func(i int) *Item) 
 		done := make(chan error, 1)
 		go func() { done <- cmd.Wait() }()
 		wallFired := false
+		aborted := false
 		select {
 		case <-done:
+		case <-r.abortCh:
+			aborted = true
+			cmd.Process.Kill()
+			<-done
 		case <-time.After(time.Duration(opts.WallSecs) * time.Second):
 			wallFired = true
 			cmd.Process.Kill()
@@ -498,6 +531,13 @@ func (r *Run) runBatch(k int, lo, hi int, opts ExecOpts, gen func(i int) *Item) 
 				}
 			}
 			of.Close()
+		}
+		if aborted {
+			os.Remove(casePath)
+			os.Remove(outPath)
+			os.Remove(errPath)
+			os.Remove(stdoutPath)
+			return
 		}
 		// anything not completed?
 		var rest []*Item
@@ -606,6 +646,11 @@ func (r *Run) Finish() {
 	}
 	if len(r.vioSigs) > 0 {
 		cov["violation_classes"] = r.vioSigs
+	}
+	select {
+	case <-r.abortCh:
+		cov["exploration_cut_short"] = fmt.Sprintf("stopped after %d violations", nviol)
+	default:
 	}
 	if len(r.samples) == 0 {
 		cov["samples"] = []any{"(no case reached the sampling point)"}
